@@ -86,6 +86,11 @@ func Layout(rt *rapid.T, o LayoutOpts) *Tree {
 		nconv = o.Faults + 1
 	}
 	dirs := []string{"alpha", "beta/inner", "gamma"}[:npk]
+	if g.draw(4, "dir-names") == 0 {
+		// directory names whose walk order differs from the order of their import paths
+		// ('-' sorts before '/'): api, api/v2, api-legacy
+		dirs = []string{"api/v2", "api-legacy", "api"}[:npk]
+	}
 	// distribute converters
 	perDir := map[string][]int{}
 	for i := 0; i < nconv; i++ {
